@@ -668,3 +668,21 @@ Proof.
   - rewrite CapProofs.proc_cap_last. apply eqb_reflx.
   - destruct batching; [rewrite CapProofs.exp_cap_batching|rewrite CapProofs.exp_cap_plain, CapProofs.base_cap_last]; apply eqb_reflx.
 Qed.
+
+(* ---- several kept route consumers of one router ------------------------------------------------------------ *)
+Lemma routes_independent_l pcaps sels k sel :
+  nth_error sels k = Some sel ->
+  nth_error (model_routes pcaps sels) k = Some (fan_cap (router_fan pcaps sel), router_calls pcaps sel).
+Proof. intros H. unfold model_routes. now rewrite (map_nth_error _ _ _ H). Qed.
+
+Lemma model_passes_routes_l sig pcaps sels : prop_ok (CRoutes sig pcaps sels (model_routes pcaps sels)) = true.
+Proof.
+  unfold prop_ok. cbn [case_clauses forallb]. unfold id. rewrite andb_true_r.
+  unfold model_routes. rewrite map_length, Nat.eqb_refl. cbn [andb].
+  apply forallb_forall. intros [sel [c l]] H. cbn [fst snd].
+  assert (E : (c, l) = (fan_cap (router_fan pcaps sel), router_calls pcaps sel)).
+  { revert H. induction sels as [|a r IH]; cbn; [tauto|]. intros [E|H]; [now injection E as <- <- <-|auto]. }
+  injection E as -> ->.
+  pose proof (model_passes_router_l 0 pcaps sel) as P. unfold prop_ok in P. cbn [case_clauses forallb] in P.
+  unfold id in P. rewrite andb_true_r in P. rewrite spec_fan_is_fan_cap_l. exact P.
+Qed.
